@@ -878,7 +878,7 @@ def c03_native(parts=('a', 'b', 'c')):
     rng = random.Random(3)
     graphs = []
     G = nx.Graph(); G.add_edges_from([(0, 1), (1, 2), (2, 0), (2, 3)]); G.add_node(4); graphs.append(('undirected', G))
-    D = nx.DiGraph(); D.add_edges_from([(0, 1), (1, 2), (2, 0), (3, 2), (1, 3)]); graphs.append(('directed', D))
+    D = nx.DiGraph(); D.add_edges_from([(0, 1), (1, 2), (2, 0), (3, 2), (1, 3), (1, 0), (2, 3), (3, 4)]); graphs.append(('directed (with reciprocal pairs)', D))
     for _, g in graphs:
         for u, v in g.edges():
             g[u][v]['ew'] = 1.0 + ((u + 2 * v) % 3) * 0.5
